@@ -91,3 +91,23 @@ Theorem bitv_resize_keeps : forall newc oldc fresh b ix, wfc oldc -> length b = 
   bitvTest newc (bitvResize newc oldc fresh b) ix = bitvTest oldc b ix.
 Proof. exact resize_spec. Qed.
 Print Assumptions bitv_resize_keeps.
+
+(* the printers bitvToString / bitvPrint: the text is "[", one digit per element with a space after every
+   fifth, "]"; reading the digits back gives exactly the set, so two vectors print alike iff they are the
+   same set (unused bits of the last word never show), for every length *)
+Theorem bitv_print_reads_back : forall c a, unprint (bitvToString c a) = bits c a.
+Proof. exact toString_reads_back. Qed.
+Print Assumptions bitv_print_reads_back.
+
+Theorem bitv_print_length : forall c a, length (bitvToString c a) = (2 + nbits c + nbits c / 5)%nat.
+Proof. exact toString_length. Qed.
+Print Assumptions bitv_print_length.
+
+Theorem bitv_print_injective : forall c a b, bitvToString c a = bitvToString c b <-> bits c a = bits c b.
+Proof. exact toString_inj. Qed.
+Print Assumptions bitv_print_injective.
+
+Theorem bitv_print_file : forall c a,
+  fst (bitvPrint c a) = bitvToString c a /\ snd (bitvPrint c a) = length (bitvToString c a).
+Proof. exact print_is_toString. Qed.
+Print Assumptions bitv_print_file.
